@@ -89,27 +89,16 @@ def run(chk):
         r = analyse(chk, PK + q, lambda I, st, fi: dict(values=rec_array("values")), setup=setup)
         c = "eqsig/fns/peaks_and_crossings.py:" + q
         unmodelled_in(r, chk, "R-PK-SHIFT", c)
-        evs = [e for e in r.I.events if e.fn == PK + q and e.kind in ("lib-call", "mutation", "call")]
-        order = []
-        for e in evs:
-            if e.kind == "lib-call" and e.name in ("numpy.array", "numpy.copy"):
-                order.append("copy")
-            elif e.kind == "mutation" and e.how == "augassign" and e.target is not None and "p:values" in e.target.tags and not order.count("rebase"):
-                order.append("rebase")
-                reb = e
-            elif e.kind == "call" and e.callee.endswith("clean_out_non_changing"):
-                order.append("clean")
-                cl = e
-        core = [x for x in order if x != "copy"]
-        ok = core[:2] == ["rebase", "clean"]
-        chk.ob("R-PK-SHIFT", c + "{order}", "values -= values[0] happens before the cleaning (whether the input is copied first is C05's concern)", ok,
-               derived="order %s" % order[:4], loc=r.fi.loc())
-        if ok:
-            sub = [x for x in r.events("subscript", PK + q) if x.index.has_const() and x.index.const == 0 and "p:values" in x.base.tags]
-            chk.ob("R-PK-SHIFT", c + "{rebase value}", "the first sample is what is subtracted", bool(sub), derived="%d read(s) of element 0" % len(sub),
-                   loc=reb.loc)
-            chk.ob("R-PK-SHIFT", c + "{cleaned input}", "the cleaning receives the rebased copy", cl.bound["values"].origin == reb.target.origin,
-                   derived="%s vs %s" % (sorted(cl.bound["values"].origin), sorted(reb.target.origin)), loc=cl.loc)
+        cls_ = [e for e in r.I.events if e.fn == PK + q and e.kind == "call" and e.callee.endswith("clean_out_non_changing")]
+        if len(cls_) != 1:
+            chk.ob("R-PK-SHIFT", c + "{order}", "one call of the cleaning routine", False, derived="%d" % len(cls_), loc=r.fi.loc(), inconclusive=not cls_)
+        else:
+            v = cls_[0].bound["values"]
+            # what reaches the cleaning is the series minus its own first sample (x - x[0], in place or not): first element exactly zero
+            chk.ob("R-PK-SHIFT", c + "{order}", "the series is rebased to a zero first sample before the cleaning (x - x[0], in place or as a new array)",
+                   v.f0 and "p:values" in v.tags and alg_degree(v.a(R)) == Exp(1), derived="first element exactly zero: %s; degree %s" %
+                   (v.f0, alg_str(v.a(R))), loc=cls_[0].loc)
+            expect(chk, "R-PK-SHIFT", c + "{cleaned input}", v, length="n", kind=K_ARRAY, loc=cls_[0].loc)
         puts = [e for e in r.events("lib-call", PK + q) if e.name == "numpy.put"]
         if len(puts) == 1:
             tgt, ind, vals = puts[0].args[:3]
